@@ -240,7 +240,7 @@ func scenCtxWhileQueued(tr *vtrace.Tracer, kind string) error {
 
 // C08: the context ends while the request sits in the send buffer behind a busy sender.
 func scenCtxWhileBuffered(tr *vtrace.Tracer, kind string) error {
-	l, err := newLife(tr, EnvOpts{Nodes: 2, MgrOpts: []gorums.ManagerOption{gorums.WithSendBufferSize(4)}})
+	l, err := newLife(tr, EnvOpts{Nodes: 2, SendBuf: 4})
 	if err != nil {
 		return err
 	}
@@ -602,7 +602,7 @@ func scenFifoAcrossStreamBreak(tr *vtrace.Tracer, kind string) error {
 	case "Rpc", "QC", "Ucast", "Mcast":
 		return nil // synchronous invocations do not queue behind each other from one goroutine
 	}
-	l, err := newLife(tr, EnvOpts{Nodes: 1, MgrOpts: []gorums.ManagerOption{gorums.WithBackoff(fastBackoff), gorums.WithSendBufferSize(8)}})
+	l, err := newLife(tr, EnvOpts{Nodes: 1, SendBuf: 8, MgrOpts: []gorums.ManagerOption{gorums.WithBackoff(fastBackoff)}})
 	if err != nil {
 		return err
 	}
@@ -959,7 +959,7 @@ func scenCloseWhileAwaiting(tr *vtrace.Tracer, kind string) error {
 
 // C12: a non-zero send buffer: calls issued after Close must not be stranded in the buffer.
 func scenCloseBuffered(tr *vtrace.Tracer, kind string) error {
-	l, err := newLife(tr, EnvOpts{Nodes: 2, MgrOpts: []gorums.ManagerOption{gorums.WithSendBufferSize(4)}})
+	l, err := newLife(tr, EnvOpts{Nodes: 2, SendBuf: 4})
 	if err != nil {
 		return err
 	}
